@@ -97,14 +97,48 @@ impl Cfg {
 
 const DEFAULT_CFG: Cfg = Cfg { version: 2, compression: None, chunker: 2, packs: 2 };
 
+thread_local! {
+    /// slice S5: the tree is materialised in this directory and backed up through the library's own
+    /// file-system source (`Repository::backup`, `LocalSource`) instead of the in-memory source
+    static FROM_FS: std::cell::RefCell<Option<std::path::PathBuf>> = const { std::cell::RefCell::new(None) };
+}
+
 /// the complete read-back oracle for one (config, tree)
 fn check_case(cfg: &Cfg, tree: &Entry, fs_restore: Option<&Path>) -> Result<(), (String, String)> {
     let es = |what: &str, e: Box<rustic_core::RusticError>| (format!("C01/{what}/error"), e.display_log());
     let env = Env::single();
     _ = env.init_with(cfg.config()).map_err(|e| es("init", e))?;
     let repo = env.open_ids().map_err(|e| es("open", e))?;
-    let snap = backup_with(&repo, &MemSource::new("r", tree.clone()), "s", T0 + 1000, &bopts().parent_opts(popts().force(true))).map_err(|e| es("backup", e))?;
-    let model = model_tree("r", tree);
+    let snap = if let Some(dir) = FROM_FS.with(|f| f.borrow().clone()) {
+        _ = fs::remove_dir_all(&dir);
+        let root = dir.join("r");
+        fs::create_dir_all(&root).map_err(|e| ("C01/machinery".to_string(), e.to_string()))?;
+        crate::c14::materialise(&root, tree);
+        if let Some(m) = tree.meta.mode {
+            vkit::fsx::set_mode(&root, m);
+        }
+        if let Some(mt) = tree.meta.mtime {
+            vkit::fsx::set_mtime(&root, mt);
+        }
+        let paths = rustic_core::PathList::from_string(root.to_str().unwrap()).map_err(|e| es("pathlist", e))?;
+        let opts = bopts().parent_opts(popts().force(true)).as_path(std::path::PathBuf::from("r"));
+        let snap = vkit::rep::snap_opts("s", T0 + 1000).map_err(|e| es("snapshot-options", e))?;
+        repo.backup(&opts, &paths, snap).map_err(|e| es("backup-from-fs", e))?
+    } else {
+        backup_with(&repo, &MemSource::new("r", tree.clone()), "s", T0 + 1000, &bopts().parent_opts(popts().force(true))).map_err(|e| es("backup", e))?
+    };
+    let mut model = model_tree("r", tree);
+    if FROM_FS.with(|f| f.borrow().is_some()) {
+        // the directory handed to the backup is itself not an entry of the walk: its node is
+        // synthesised (default mode, no times), only what lies below it is compared in full
+        if model.len() == 1 {
+            // an empty directory: nothing below it, so not even the synthesised node exists
+            model.clear();
+        } else if let Some(r) = model.get_mut(&b"r"[..]) {
+            r.mtime = None;
+            r.mode = Some(0o755);
+        }
+    }
     // (a)+(b) ls and dump through the API
     let full = env.open_full().map_err(|e| es("open", e))?;
     let got = vkit::logical::read_snapshot(&full, &snap).map_err(|e| ("C01/read/api".to_string(), e))?;
@@ -421,7 +455,7 @@ pub fn run(args: &Args, rep: &mut Report) {
     std::panic::set_hook(Box::new(|_| {}));
     let thorough = !args.quick();
     let sb = sandbox(&format!("c01-{}", args.shard));
-    rep.set_meta("rule", json!("S1: every tree with <= n nodes over {dir,file,symlink} and names a,b,c; S2: one file per legal single-byte name (253) + pairs over a hostile set + long/unicode/escape-like names; S3: configuration grid {v1,v2} x compression x 7 chunkers x 3 pack sizes, each with a tree of files whose lengths sit on the chunker's min/avg/max boundaries x fills {zero, 0xff, period 3, LCG} and a file equal to a sibling tree; S4: symlink targets (relative, absolute, dangling, non-UTF-8, long), hardlink pair and triple, nesting depth 1..40, 100 files in one directory, modes incl. setuid/sticky, mtimes incl. 0, 1 ns, year 2200, negative. Every case: ls + dump through the API, independent decoder, read_file_at over a boundary grid, check --read-data, and (where the file system can hold the names) restore into an empty tmpfs directory compared by lstat (ownership handling off; for trees with set-id/sticky bits also on, by name and numeric). Non-trivial = distinct cases"));
+    rep.set_meta("rule", json!("S1: every tree with <= n nodes over {dir,file,symlink} and names a,b,c; S2: one file per legal single-byte name (253) + pairs over a hostile set + long/unicode/escape-like names; S3: configuration grid {v1,v2} x compression x 7 chunkers x 3 pack sizes, each with a tree of files whose lengths sit on the chunker's min/avg/max boundaries x fills {zero, 0xff, period 3, LCG} and a file equal to a sibling tree; S4: symlink targets (relative, absolute, dangling, non-UTF-8, long), hardlink pair and triple, nesting depth 1..40, 100 files in one directory, modes incl. setuid/sticky, mtimes incl. 0, 1 ns, year 2200, negative. S5: the S1/S2/S4 trees which a file system can hold, materialised on tmpfs and backed up through the library's own file-system source (Repository::backup with as_path). Every case: ls + dump through the API, independent decoder, read_file_at over a boundary grid, check --read-data, and (where the file system can hold the names) restore into an empty tmpfs directory compared by lstat (ownership handling off; for trees with set-id/sticky bits also on, by name and numeric). Non-trivial = distinct cases"));
     if let Some(p) = &args.replay {
         let v: Value = serde_json::from_str(&fs::read_to_string(p).unwrap()).unwrap();
         let c = &v["case"];
@@ -435,6 +469,27 @@ pub fn run(args: &Args, rep: &mut Report) {
                     _ = m.insert(name.clone(), Entry::file(lcg(5, 90), T0 + 1));
                 }
                 (DEFAULT_CFG, t, c["fs"].as_bool().unwrap_or(false))
+            }
+            Some("S5") => {
+                FROM_FS.with(|f| *f.borrow_mut() = Some(sb.join("source")));
+                match c["from"].as_str() {
+                    Some("S1") => {
+                        let n = c["n"].as_u64().unwrap() as usize;
+                        (DEFAULT_CFG, shapes(n)[c["index"].as_u64().unwrap() as usize].clone(), c["index"].as_u64().unwrap() % 32 == 0)
+                    }
+                    Some("S2") => {
+                        let name: Vec<u8> = serde_json::from_value(c["name"].clone()).unwrap();
+                        let mut t = Entry::dir(T0);
+                        if let Ent::Dir(m) = &mut t.ent {
+                            _ = m.insert(name, Entry::file(lcg(5, 90), T0 + 1));
+                        }
+                        (DEFAULT_CFG, t, false)
+                    }
+                    _ => {
+                        let (_, t, f) = misc_trees().into_iter().find(|(n, _, _)| Some(n.as_str()) == c["name"].as_str()).unwrap();
+                        (DEFAULT_CFG, t, f)
+                    }
+                }
             }
             Some("S3") => {
                 let cfg = Cfg::from_json(&c["config"]);
@@ -506,6 +561,31 @@ pub fn run(args: &Args, rep: &mut Report) {
             run_one(&cfg, &t, fsr, json!({"slice": "S4", "name": name, "config": cfg.json()}), "S4", rep);
         }
     }
+    // S5: the same trees (those the file system can hold) materialised on tmpfs and backed up
+    // through the library's own file-system source
+    FROM_FS.with(|f| *f.borrow_mut() = Some(sb.join("source")));
+    for (i, t) in shapes(n).iter().enumerate() {
+        if i % 8 == 0 || thorough {
+            run_one(&DEFAULT_CFG, t, i % 32 == 0, json!({"slice": "S5", "from": "S1", "n": n, "index": i}), "S5", rep);
+        }
+    }
+    for name in name_cases() {
+        let fs_ok = !name.contains(&0) && name.len() <= 255;
+        if !fs_ok {
+            continue;
+        }
+        let mut t = Entry::dir(T0);
+        if let Ent::Dir(m) = &mut t.ent {
+            _ = m.insert(name.clone(), Entry::file(lcg(5, 90), T0 + 1));
+        }
+        run_one(&DEFAULT_CFG, &t, false, json!({"slice": "S5", "from": "S2", "name": name, "name_lossy": String::from_utf8_lossy(&name)}), "S5", rep);
+    }
+    for (name, t, fsr) in misc_trees() {
+        if fsr {
+            run_one(&DEFAULT_CFG, &t, true, json!({"slice": "S5", "from": "S4", "name": name}), "S5", rep);
+        }
+    }
+    FROM_FS.with(|f| *f.borrow_mut() = None);
     _ = fs::remove_dir_all(&sb);
     let _: Option<LTree> = None;
     let _ = OsStrExt::as_bytes(std::ffi::OsStr::new(""));
